@@ -1,28 +1,26 @@
-"""C13: chunk fitting."""
-from vflib import core, glue, report
+"""C13: chunk fitting pads with NOPs so that no instruction straddles a chunk boundary."""
+from vflib import gluechecks
 
 
 def run(tier, only=None):
-    rep = report.Report("C13", tier, "model_checking")
-    eng = glue.GlueEngine("C13", tier)
-    cmax = 24 if tier == "quick" else 64
-    k = 2
-    ks = [x for x in eng.known if x["property"] == "C13"]
-    excl = " || ".join("(%s)" % x["when"] for x in ks) or None
-    uw = {"assemble_all.0": k + 2, "__CPROVER_file_local_parser_c_assemble_with_chunk_fitting.0": 4}
-    res = []
-    res.append(eng.run("c13.fitting", "glue_c13.c", defs=["-DCMAX=%d" % cmax, "-DCMIN=0", "-DKMAX=%d" % k, "-DNPROG=2"], unwind=20, unwindset=uw,
-                       exclude=excl, timeout=1500 if tier == "quick" else 7200))
-    rep.add(res)
-    for x in ks:
-        r = eng.run("c13.known." + x["id"], "glue_c13.c", defs=["-DCMAX=%d" % cmax, "-DCMIN=0", "-DKMAX=%d" % k, "-DNPROG=2"], unwind=20,
-                    unwindset=uw, only=x["when"])
-        rep.known(x, r["status"] == "violated", r)
-    return rep.finish(
-        {"symbolic_per_query": "buffer length 0..128, start offset 0..n, chunk size of the first call 0..%d and of the second call 0..%d (values < 2 switch fitting off), two programs of up to %d abstract lines (skip or instruction of length 1..15 with arbitrary bytes), mov-immediate mode" % (cmax, cmax, k)},
-        glue.GLUE_ASSUMPTIONS + ["NOP oracle: the Intel-recommended 1..11 byte NOPs written independently in /verif/c/glue.c; a padding run may be one or two of them"],
-        {"chunk_size_max": cmax, "lines_per_program": k, "calls": 2, "buffer_max": 128, "instruction_length": "1..15",
-         "outside": "chunk sizes above the stated maximum; more than %d lines per call" % k},
-        "one CBMC query over all chunk sizes, offsets, buffer lengths and instruction lengths within the bounds",
-        ["asm_create_instance", "asm_set_chunk_size", "asm_set_offset", "asm_assemble_str", "assemble_all", "assemble",
-         "assemble_with_chunk_fitting", "check_len_or_resize", "nop_padding", "FIXED_NOP_LENGTH"])
+    cs = [2, 3, 5, 8, 13, 16, 24] if tier == "quick" else list(range(2, 33)) + [40, 48, 63, 64]
+    q = []
+    for c in cs:
+        outer = (c - 1) // 11 + 2
+        q.append({"name": "c13.step.c%d" % c, "cfile": "glue_c13.c",
+                  "defs": ["-DCMAX=64", "-DCFIX=%d" % c, "-DKMAX=1", "-DNPROG=1", "-DNCALLS=1", "-DGBUF=72"],
+                  "unwindset": {"nop_padding.1": outer}, "timeout": 1500 if tier == "quick" else 3600})
+    for c in ([5, 16] if tier == "quick" else [3, 5, 8, 16, 24]):
+        outer = (c - 1) // 11 + 2
+        q.append({"name": "c13.two_calls.c%d" % c, "cfile": "glue_c13.c",
+                  "defs": ["-DCMAX=64", "-DCFIX=%d" % c, "-DKMAX=2", "-DNPROG=2", "-DNCALLS=2", "-DGBUF=64", "-DGLUE_NOWRITE"],
+                  "unwindset": {"nop_padding.1": outer}, "timeout": 1500 if tier == "quick" else 3600})
+    q.append({"name": "c13.off", "cfile": "glue_c13.c",
+              "defs": ["-DCMAX=1", "-DCMIN=0", "-DKMAX=2", "-DNPROG=2", "-DNCALLS=2", "-DGBUF=64"]})
+    return gluechecks.run_queries(
+        "C13", tier, q,
+        "per chunk size c (one query each): buffer length 0..72, start offset 0..n, one abstract instruction of length 1..13 with arbitrary bytes (step query; covers every position relative to a boundary), mov-immediate mode; two-call queries: two programs of up to 2 lines, second call with fitting kept, or switched off (c2 in {0,1,c}); c13.off: chunk sizes 0 and 1",
+        {"chunk_sizes": cs, "instruction_length": "1..13 (ENC length lemma)", "buffer_max": 72,
+         "outside": "chunk sizes not enumerated; more than 2 lines per call in the direct queries (the step query is inductive over lines: the only state between lines is the buffer position, which is symbolic)"},
+        "one CBMC query per chunk size (a symbolic divisor makes the 64-bit remainder dominate); non-trivial when the witness is reachable",
+        ["NOP oracle: the Intel-recommended 1..11-byte NOPs written independently in /verif/c/glue.c; a padding run may be one or two of them"], only)
